@@ -117,10 +117,7 @@ func genCase(t *rapid.T) Case {
 		}
 		switch a.Kind {
 		case "kick":
-			a.Sel = rapid.IntRange(0, 31).Draw(t, "kickSel") // the candidate list is longer than 8 in busy histories
-			if rapid.IntRange(0, 3).Draw(t, "kickInput") == 1 {
-				a.Sel = 0 // the accepted input, if there is one with an id: its old handle is probed afterwards
-			}
+			a.Sel = rapid.IntRange(0, 31).Draw(t, "kickSel") // category (input / subscriber / look-alike / malformed) and member
 		case "sub":
 			a.Sub = rapid.SampledFrom([]string{"rtmp", "flv", "ts", "rtsp", "wsflv", "rtmp", "flv", "ts", "rtsp", "wsts"}).Draw(t, "subKind")
 			if c.Auth {
@@ -462,35 +459,18 @@ func (w *world) apply(ai int, a Action, st *streamModel) *pbt.Violation {
 			return w.apply(ai, Action{Kind: "sub", Name: a.Name, Sel: a.Sel, Sub: sb.kind}, st)
 		}
 	case "kick":
-		// candidates: the input, each sub, stale ids, ids of the other stream
-		var ids []string
-		if st.in != nil && st.in.id != "" {
-			ids = append(ids, st.in.id)
-		}
-		for _, sb := range st.subs {
-			ids = append(ids, sb.id)
-		}
-		ids = append(ids, st.staleIDs...)
-		if st.pull != nil {
-			// a pull that is still connecting is not attached: its id is a foreign id (and the kick changes nothing)
-			ids = append(ids, st.pull.id)
-		}
-		for _, o := range w.streams {
-			if o != st {
-				if o.in != nil && o.in.id != "" {
-					ids = append(ids, o.in.id)
-				}
-				for _, sb := range o.subs {
-					ids = append(ids, sb.id)
-				}
-			}
-		}
-		// for every attached session an id of the same kind and length that is not attached to this stream
+		// candidates by category (a.Sel%4 picks the category, a.Sel/4 the member; an empty category passes on to the
+		// next): the accepted input | the attached subscribers | ids that look real but are not attached to this
+		// stream (same kind and length as an attached one with another number, ids of departed sessions, the id of
+		// a pull that is still connecting, sessions of the other stream) | malformed and far-away ids
+		var cats [4][]string
 		attached := map[string]bool{}
-		if st.in != nil {
+		if st.in != nil && st.in.id != "" {
+			cats[0] = append(cats[0], st.in.id)
 			attached[st.in.id] = true
 		}
 		for _, sb := range st.subs {
+			cats[1] = append(cats[1], sb.id)
 			attached[sb.id] = true
 		}
 		var sibs []string
@@ -500,9 +480,30 @@ func (w *world) apply(ai int, a Action, st *streamModel) *pbt.Violation {
 			}
 		}
 		sort.Strings(sibs) // map order must not reach the history
-		ids = append(ids, sibs...)
-		ids = append(ids, "RTMPPUBSUB99999", "FLVSUB99999", "nonsense", "PSPUB99999")
-		id := ids[a.Sel%len(ids)]
+		cats[2] = append(cats[2], sibs...)
+		for k := len(st.staleIDs) - 1; k >= 0; k-- {
+			cats[2] = append(cats[2], st.staleIDs[k])
+		}
+		if st.pull != nil {
+			// a pull that is still connecting is not attached: its id is a foreign id (and the kick changes nothing)
+			cats[2] = append(cats[2], st.pull.id)
+		}
+		for _, o := range w.streams {
+			if o != st {
+				if o.in != nil && o.in.id != "" {
+					cats[2] = append(cats[2], o.in.id)
+				}
+				for _, sb := range o.subs {
+					cats[2] = append(cats[2], sb.id)
+				}
+			}
+		}
+		cats[3] = []string{"RTMPPUBSUB99999", "FLVSUB99999", "nonsense", "PSPUB99999"}
+		cat := a.Sel % 4
+		for len(cats[cat]) == 0 {
+			cat = (cat + 1) % 4
+		}
+		id := cats[cat][(a.Sel/4)%len(cats[cat])]
 		var resp base.ApiCtrlKickSessionResp
 		s.Call("CtrlKickSession", func() { resp = s.SM.CtrlKickSession(base.ApiCtrlKickSessionReq{StreamName: st.name, SessionId: id}) })
 		// is the id attached to THIS stream?
